@@ -1,6 +1,102 @@
+import DdsModel.Bc
 import DdsModel.Drv.Util
 namespace Dds.Drv
+open Dds Dds.Bc
 
-def runC03 (_line : String) : String := "not-modelled"
+def c03Fmt (s : String) : Option (Fmt × Nat) :=
+  match s with
+  | "bc1" => some (.bc1, 8)
+  | "bc2" => some (.bc2, 16)
+  | "bc2rgb" => some (.bc2rgb, 16)
+  | "bc2p" => some (.bc2p, 16)
+  | "bc3" => some (.bc3, 16)
+  | "bc3rgb" => some (.bc3rgb, 16)
+  | "bc3p" => some (.bc3p, 16)
+  | "rxgb" => some (.rxgb, 16)
+  | "bc3n" => some (.bc3n, 16)
+  | "bc4u" => some (.bc4u, 8)
+  | "bc4s" => some (.bc4s, 8)
+  | "bc5u" => some (.bc5u, 16)
+  | "bc5s" => some (.bc5s, 16)
+  | _ => none
+
+def c03Prec (s : String) : Option Prec :=
+  match s with
+  | "8" => some .u8
+  | "16" => some .u16
+  | "32" => some .f32
+  | _ => none
+
+def hexVal (c : Char) : Option Nat :=
+  if '0' ≤ c ∧ c ≤ '9' then some (c.toNat - 48)
+  else if 'a' ≤ c ∧ c ≤ 'f' then some (c.toNat - 87)
+  else none
+
+def hexBytes : List Char → Option (List Nat)
+  | [] => some []
+  | a :: b :: rest => do
+    let x ← hexVal a
+    let y ← hexVal b
+    let r ← hexBytes rest
+    some ((x * 16 + y) :: r)
+  | _ => none
+
+/-- same mixing function as `hash_block` in harness/src/c03.rs -/
+def hashVals (vals : List Nat) : UInt32 :=
+  vals.foldl (fun h v =>
+    let h := (h ^^^ v.toUInt32) * 16777619
+    h ^^^ (h >>> 15)) 0x811C9DC5
+
+def hex8 (h : UInt32) : String :=
+  let d := Nat.toDigits 16 h.toNat
+  String.ofList (List.replicate (8 - d.length) '0' ++ d)
+
+/-- table lookup with fall-back to the function itself -/
+def memoGet (f : Nat → Nat) (t : Thunk (Array Nat)) (v : Nat) : Nat :=
+  match t.get[v]? with
+  | some x => x
+  | none => f v
+
+def memoTbl (n : Nat) (f : Nat → Nat) : Thunk (Array Nat) := Thunk.mk fun _ => (Array.range n).map f
+
+def tblN8F32 : Thunk (Array Nat) := memoTbl 256 n8f32
+def tblS8F32 : Thunk (Array Nat) := memoTbl 256 s8uf32
+def tblU6 : Thunk (Array Nat) := memoTbl 1786 (bc4uOps .f32).interp6
+def tblU4 : Thunk (Array Nat) := memoTbl 1276 (bc4uOps .f32).interp4
+def tblS6 : Thunk (Array Nat) := memoTbl 1779 (bc4sOps .f32).interp6
+def tblS4 : Thunk (Array Nat) := memoTbl 1271 (bc4sOps .f32).interp4
+
+/-- `stdConv` with the f32 conversions memoised (equal to `stdConv`: `C03.driver_fast_path_eq`) -/
+def fastConv : Conv where
+  widen := fun pr v => match pr with
+    | .f32 => memoGet n8f32 tblN8F32 v
+    | pr => widen pr v
+  uOps := fun pr => match pr with
+    | .f32 => { bc4uOps .f32 with
+                fromByte := memoGet n8f32 tblN8F32
+                interp6 := memoGet (bc4uOps .f32).interp6 tblU6
+                interp4 := memoGet (bc4uOps .f32).interp4 tblU4 }
+    | pr => bc4uOps pr
+  sOps := fun pr => match pr with
+    | .f32 => { bc4sOps .f32 with
+                fromByte := memoGet s8uf32 tblS8F32
+                interp6 := memoGet (bc4sOps .f32).interp6 tblS6
+                interp4 := memoGet (bc4sOps .f32).interp4 tblS4 }
+    | pr => bc4sOps pr
+
+def runC03 (line : String) : String :=
+  match toks line with
+  | ["B", f, p, wb, hex] =>
+    match c03Fmt f, c03Prec p, nat? wb, hexBytes hex.toList with
+    | some (fmt, bpb), some pr, some wb, some bytes =>
+      let n := bytes.length / bpb
+      if wb = 0 ∨ bytes.length = 0 ∨ bytes.length % bpb ≠ 0 ∨ n % wb ≠ 0 then "bad-case" else
+      let arr := bytes.toArray
+      let hs := (List.range n).map fun b =>
+        let blk : Nat → Nat := fun i => arr.getD (b * bpb + i) 0
+        hex8 (hashVals (decodeBlockWith fastConv fmt pr blk).flatten)
+      "ok " ++ String.join hs
+    | _, _, _, _ => "bad-case"
+  | _ => "bad-case"
 
 end Dds.Drv
